@@ -115,7 +115,7 @@ Proof.
   destruct (nth_error (prods s) i) as [p|] eqn:Hn; [|discriminate].
   destruct (pp p) eqn:Hp.
   - (* PSet *)
-    assert (Hw : forall c, at_write (with_pp p c) = at_write p \/ True) by auto.
+    destruct (pk p); [discriminate|].
     destruct (stopped s); inversion H; subst; clear H;
       (constructor; simpl; auto;
        pose proof (count_w_set_nth i (with_pp p (PLoad (if registered s then 0 else 1))) p _ Hn) as C1;
@@ -284,11 +284,15 @@ Qed.
 Definition nidx (c : ppc) : nat :=
   match c with PSet => 0 | PLoad j => j | PCas j _ => j | PWrite j => S j end.
 
+Definition pend_ok (s : st) : Prop :=
+  match loop s with
+  | LExec => exists p j r, pending s = IWork p j :: r
+  | _ => pending s = [] end.
+
 Record InvQ (s : st) : Prop := {
+  q_inact : inactive s = true -> stack s = [];
   q_fifo : enq s = consumed s ++ pending s ++ rev (stack s);
-  q_pend : match loop s with
-           | LExec => exists p j r, pending s = IWork p j :: r
-           | _ => pending s = [] end;
+  q_pend : pend_ok s;
   q_stop : should_stop s = true <-> In IStop (consumed s);
   q_stoploop : should_stop s = true -> loop s = LExec \/ loop s = LRet \/ loop s = LDone;
   q_ret : loop s = LRet \/ loop s = LDone -> should_stop s = true;
@@ -300,6 +304,7 @@ Record InvQ (s : st) : Prop := {
 Lemma invQ_init counts nstop pre : InvQ (init counts nstop pre).
 Proof.
   constructor; simpl; auto; try discriminate.
+  - reflexivity.
   - split; [discriminate|tauto].
   - intros [H|H]; discriminate.
   - constructor.
@@ -324,24 +329,558 @@ Qed.
 
 Lemma step_prod_invQ i s s' evs : InvQ s -> step_prod i s = Some (s', evs) -> InvQ s'.
 Proof.
-  intros [Hf Hp Hs Hsl Hr Hnd Ho] H. unfold step_prod in H.
+  intros [Hia Hf Hp Hs Hsl Hr Hnd Ho] H. unfold step_prod in H. unfold pend_ok in Hp.
   destruct (nth_error (prods s) i) as [p|] eqn:Hn; [|discriminate].
   destruct (pp p) eqn:Hpp.
-  - destruct (stopped s); inversion H; subst; clear H; constructor; simpl; auto;
+  - destruct (pk p); [discriminate|].
+    destruct (stopped s); inversion H; subst; clear H; constructor; unfold pend_ok; simpl; auto;
       eapply own_set_prod; eauto; rewrite Hpp; simpl; lia.
-  - destruct (Nat.ltb j (pn p)); inversion H; subst; clear H. constructor; simpl; auto.
+  - destruct (Nat.ltb j (pn p)); inversion H; subst; clear H. constructor; unfold pend_ok; simpl; auto.
     eapply own_set_prod; eauto. rewrite Hpp; simpl; lia.
   - destruct (ptr_eqb (head_ptr s) old).
     + unfold do_enqueue in H. inversion H; subst; clear H.
       assert (Hfifo : enq s ++ [item_of i p j] =
                       consumed s ++ pending s ++ rev (item_of i p j :: (if inactive s then [] else stack s))).
       { simpl. rewrite Hf. destruct (inactive s) eqn:Hina.
-        - (* inactive: the stack is empty *)
-          admit.
-        - now rewrite !app_assoc. }
-      admit.
-    + inversion H; subst; clear H. constructor; simpl; auto.
+        - rewrite (Hia eq_refl). simpl. now rewrite !app_nil_r, <- !app_assoc.
+        - now rewrite <- !app_assoc. }
+      assert (Hown : forall q k, In (IWork q k) (enq s ++ [item_of i p j]) ->
+                exists i0 p0, q = S i0 /\
+                  nth_error (set_nth i (with_pp p (if inactive s then PWrite j else PLoad (S j))) (prods s)) i0 = Some p0 /\
+                  pk p0 = KProd /\ k < nidx (pp p0)).
+      { intros q k Hin. apply in_app_or in Hin. destruct Hin as [Hin|[Hin|[]]].
+        - eapply own_set_prod; eauto. rewrite Hpp. destruct (inactive s); simpl; lia.
+        - unfold item_of in Hin. destruct (pk p) eqn:Hk; [|discriminate]. inversion Hin; subst q k.
+          exists i, (with_pp p (if inactive s then PWrite j else PLoad (S j))). repeat split; auto.
+          + eapply nth_set_nth_eq; eauto.
+          + destruct (inactive s); simpl; lia. }
+      assert (Hnd' : NoDup (filter is_work (enq s ++ [item_of i p j]))).
+      { unfold item_of. destruct (pk p) eqn:Hk.
+        - rewrite filter_app. simpl. apply NoDup_snoc; auto.
+          rewrite filter_In. intros [Hin _]. destruct (Ho _ _ Hin) as (i0 & p0 & E & Hn0 & _ & Hlt).
+          inversion E; subst i0. rewrite Hn in Hn0. inversion Hn0; subst p0. rewrite Hpp in Hlt. simpl in Hlt. lia.
+        - rewrite filter_app_nil; auto. }
+      destruct (inactive s); constructor; unfold pend_ok; simpl; auto; discriminate.
+    + inversion H; subst; clear H. constructor; unfold pend_ok; simpl; auto.
       eapply own_set_prod; eauto. rewrite Hpp; simpl; lia.
-  - inversion H; subst; clear H. constructor; simpl; auto.
+  - inversion H; subst; clear H. constructor; unfold pend_ok; simpl; auto.
     eapply own_set_prod; eauto. rewrite Hpp; simpl; lia.
-Admitted.
+Qed.
+
+Definition is_nil {A} (l : list A) : bool := match l with [] => true | _ => false end.
+
+(* what continue_batch establishes: s holds the batch b (in place of its pending field) *)
+Lemma continue_batch_Q s b :
+  enq s = consumed s ++ b ++ rev (stack s) ->
+  (should_stop s = true <-> In IStop (consumed s)) ->
+  (should_stop s = true -> b <> [] \/ True) ->
+  let s' := continue_batch s b in
+  enq s' = enq s /\ stack s' = stack s /\ inactive s' = inactive s /\ prods s' = prods s /\
+  stopped s' = stopped s /\ registered s' = registered s /\ efd s' = efd s /\ tokens s' = tokens s /\
+  enq s' = consumed s' ++ pending s' ++ rev (stack s') /\
+  pend_ok s' /\
+  (should_stop s' = true <-> In IStop (consumed s')) /\
+  (should_stop s' = true -> loop s' = LExec \/ loop s' = LRet \/ loop s' = LDone) /\
+  (loop s' = LRet \/ loop s' = LDone -> should_stop s' = true) /\
+  (exists a, consumed s' = consumed s ++ a /\ forall x, In x a -> x = IStop) /\
+  (loop s' = LExec \/ loop s' = LRet \/ loop s' = LMarkLoad).
+Proof.
+  intros Hf Hs _. unfold continue_batch. destruct (strip_stops b) as [a r] eqn:E.
+  destruct (strip_stops_spec _ _ _ E) as (Hb & Ha & Hr). subst b.
+  set (stp := should_stop s || negb (is_nil a)).
+  assert (Hstp : stp = true <-> In IStop (consumed s ++ a)).
+  { unfold stp. rewrite in_app_iff, orb_true_iff, Hs. split; intros [H|H]; auto.
+    - destruct a as [|x a']; [discriminate|]. right. left. apply Ha. now left.
+    - destruct a; [destruct H|]. now right. }
+  assert (E1 : (should_stop s || negb match a with [] => true | _ :: _ => false end) = stp) by reflexivity.
+  rewrite E1.
+  destruct (work_head _ Hr) as [->|(p & j & r' & ->)]; unfold pend_ok; simpl.
+  - destruct stp eqn:Es; simpl; repeat split; auto; try tauto; try discriminate;
+      try (rewrite Hf, app_nil_r; now rewrite <- !app_assoc);
+      try (intros [H|H]; discriminate); try (exists a; split; auto).
+  - repeat split; auto; try tauto; try (intros [H|H]; discriminate);
+      try (rewrite Hf; now rewrite <- !app_assoc); try (exists a; split; now auto); try apply Hstp; eauto.
+Qed.
+
+Lemma step_loop_invQ s s' evs : InvQ s -> step_loop s = Some (s', evs) -> InvQ s'.
+Proof.
+  intros [Hia Hf Hp Hs Hsl Hr Hnd Ho] H. unfold step_loop in H. unfold pend_ok in Hp.
+  assert (Hns : should_stop s = true -> loop s = LExec \/ loop s = LRet \/ loop s = LDone) by exact Hsl.
+  destruct (loop s) eqn:Hl.
+  - destruct (stopped s); inversion H; subst; clear H; constructor; unfold pend_ok; simpl; auto;
+      try (intros [E|E]; discriminate); intros E; destruct (Hns E) as [X|[X|X]]; discriminate.
+  - inversion H; subst; clear H; constructor; unfold pend_ok; simpl; auto;
+      try (intros [E|E]; discriminate); intros E; destruct (Hns E) as [X|[X|X]]; discriminate.
+  - destruct (ptr_eqb (head_ptr s) old).
+    + unfold do_enqueue in H. inversion H; subst; clear H.
+      assert (Hfifo : enq s ++ [IStop] =
+                      consumed s ++ pending s ++ rev (IStop :: (if inactive s then [] else stack s))).
+      { simpl. rewrite Hf. destruct (inactive s) eqn:Hina.
+        - rewrite (Hia eq_refl). simpl. now rewrite !app_nil_r, <- !app_assoc.
+        - now rewrite <- !app_assoc. }
+      assert (Hown : forall q k, In (IWork q k) (enq s ++ [IStop]) ->
+                exists i0 p0, q = S i0 /\ nth_error (prods s) i0 = Some p0 /\ pk p0 = KProd /\ k < nidx (pp p0)).
+      { intros q k Hin. apply in_app_or in Hin. destruct Hin as [Hin|[Hin|[]]]; [auto|discriminate]. }
+      destruct (inactive s); constructor; unfold pend_ok; simpl; auto; try discriminate;
+        try (rewrite filter_app_nil; auto);
+        try (intros [E|E]; discriminate); intros E; destruct (Hns E) as [X|[X|X]]; discriminate.
+    + inversion H; subst; clear H; constructor; unfold pend_ok; simpl; auto;
+        try (intros [E|E]; discriminate); intros E; destruct (Hns E) as [X|[X|X]]; discriminate.
+  - inversion H; subst; clear H; constructor; unfold pend_ok; simpl; auto;
+      try (intros [E|E]; discriminate); intros E; destruct (Hns E) as [X|[X|X]]; discriminate.
+  - (* LExec *)
+    destruct Hp as (p & j & r & Hp). rewrite Hp in H. inversion H; subst; clear H.
+    match goal with |- InvQ (continue_batch ?x ?y) =>
+      destruct (continue_batch_Q x y) as (E1 & E2 & E3 & E4 & E5 & E6 & E7 & E8 & F1 & F2 & F3 & F4 & F5 & F6 & F7) end.
+    + simpl. rewrite Hf, Hp. now rewrite <- !app_assoc.
+    + simpl. rewrite Hs, in_app_iff. simpl. split; [tauto|]. intros [X|[X|[]]]; auto. discriminate.
+    + auto.
+    + constructor; auto; rewrite ?E1, ?E2, ?E3, ?E4; simpl; auto; try discriminate.
+  - (* LMarkLoad *)
+    inversion H; subst; clear H; constructor; unfold pend_ok; simpl; auto.
+    + destruct (stack s); auto.
+    + intros E; destruct (Hns E) as [X|[X|X]]; discriminate.
+    + destruct (stack s); intros [E|E]; discriminate.
+  - (* LMarkCas *)
+    destruct (stack s) eqn:Hst; inversion H; subst; clear H; constructor; unfold pend_ok; simpl; auto;
+      try (intros [E|E]; discriminate); try (intros E; destruct (Hns E) as [X|[X|X]]; discriminate).
+    all: rewrite ?Hst; auto.
+  - (* LXchg *)
+    inversion H; subst; clear H.
+    match goal with |- InvQ (continue_batch ?x ?y) =>
+      destruct (continue_batch_Q x y) as (E1 & E2 & E3 & E4 & E5 & E6 & E7 & E8 & F1 & F2 & F3 & F4 & F5 & F6 & F7) end.
+    + simpl. rewrite Hf, Hp. simpl. now rewrite app_nil_r.
+    + simpl. exact Hs.
+    + auto.
+    + constructor; auto; rewrite ?E1, ?E2, ?E3, ?E4; simpl; auto; try discriminate.
+  - (* LWait *)
+    destruct (Nat.ltb 0 (efd s)); [|discriminate].
+    inversion H; subst; clear H; constructor; unfold pend_ok; simpl; auto;
+      try (intros [E|E]; discriminate); intros E; destruct (Hns E) as [X|[X|X]]; discriminate.
+  - inversion H; subst; clear H; constructor; unfold pend_ok; simpl; auto;
+      try (intros [E|E]; discriminate); intros E; destruct (Hns E) as [X|[X|X]]; discriminate.
+  - (* LRet *)
+    inversion H; subst; clear H; constructor; unfold pend_ok; simpl; auto.
+  - discriminate.
+Qed.
+
+Lemma step_invQ t s s' evs : InvQ s -> step t s = Some (s', evs) -> InvQ s'.
+Proof. destruct t; simpl; [apply step_loop_invQ | apply step_prod_invQ]. Qed.
+
+Theorem invQ_reachable counts nstop pre (sched : list nat) :
+  InvQ (fst (run step sched (init counts nstop pre, []))).
+Proof.
+  apply (run_invariant_state _ _ _ step InvQ); [|apply invQ_init].
+  intros; eapply step_invQ; eauto.
+Qed.
+
+
+(* ---- invariant 3: the stop request ----------------------------------------------------------------- *)
+Definition in_pre (l : lpc) : Prop := l = LPreLoad \/ (exists o, l = LPreCas o) \/ l = LPreWrite.
+Definition stop_owed_by (p : prod) : Prop :=
+  pk p = KStopper /\ (pp p = PLoad 0 \/ exists o, pp p = PCas 0 o).
+Definition owed_loop (l : lpc) : Prop := l = LReg \/ l = LPreLoad \/ exists o, l = LPreCas o.
+
+Record InvS (s : st) : Prop := {
+  s_stopped : In IStop (enq s) -> stopped s = true;
+  s_reg : registered s = false -> stopped s = false -> loop s = LReg;
+  s_stopper : forall i p, nth_error (prods s) i = Some p -> pk p = KStopper -> pn p = 1;
+  s_kst : forall i p, nth_error (prods s) i = Some p -> pk p = KStopper -> pp p = PSet \/ stopped s = true;
+  s_pre : in_pre (loop s) -> stopped s = true;
+  s_owed : stopped s = true ->
+           In IStop (enq s) \/ owed_loop (loop s) \/
+           exists i p, nth_error (prods s) i = Some p /\ stop_owed_by p
+}.
+
+Lemma invS_init counts nstop pre : InvS (init counts nstop pre).
+Proof.
+  constructor; simpl; auto; try tauto.
+  - intros i p H Hk. pose proof (nth_error_In _ _ H) as H'. apply in_app_or in H'. destruct H' as [H'|H'].
+    + apply in_map_iff in H'. destruct H' as (n & <- & _). discriminate.
+    + apply repeat_spec in H'. subst. reflexivity.
+  - intros i p H Hk. pose proof (nth_error_In _ _ H) as H'. apply in_app_or in H'. destruct H' as [H'|H'].
+    + apply in_map_iff in H'. destruct H' as (n & <- & _). discriminate.
+    + apply repeat_spec in H'. subst. now left.
+  - intros [H|[[o H]|H]]; discriminate.
+  - intros _. right. left. now left.
+Qed.
+
+(* facts about all producers survive an update of producer i when the new value satisfies them *)
+Lemma all_set_prod (P : prod -> Prop) (l : list prod) i x i0 p0 :
+  nth_error (set_nth i x l) i0 = Some p0 ->
+  (forall i p, nth_error l i = Some p -> P p) -> P x -> P p0.
+Proof.
+  intros Hn H Hx. destruct (Nat.eq_dec i i0) as [<-|Hne].
+  - destruct (nth_error l i) eqn:E.
+    + rewrite (nth_set_nth_eq _ _ _ _ E) in Hn. now inversion Hn; subst.
+    + assert (nth_error (set_nth i x l) i = None).
+      { apply nth_error_None. rewrite set_nth_length. now apply nth_error_None. }
+      congruence.
+  - rewrite nth_set_nth_neq in Hn; eauto.
+Qed.
+
+Lemma owed_set_prod (l : list prod) i x y :
+  nth_error l i = Some y -> (stop_owed_by y -> stop_owed_by x) ->
+  (exists i p, nth_error l i = Some p /\ stop_owed_by p) ->
+  exists i0 p0, nth_error (set_nth i x l) i0 = Some p0 /\ stop_owed_by p0.
+Proof.
+  intros Hn Hxy (i0 & p0 & Hn0 & Ho). destruct (Nat.eq_dec i i0) as [<-|Hne].
+  - rewrite Hn in Hn0. inversion Hn0; subst p0. exists i, x. split; auto. eapply nth_set_nth_eq; eauto.
+  - exists i0, p0. split; auto. rewrite nth_set_nth_neq; auto.
+Qed.
+
+(* a step of producer i that moves its pc to c, leaves stopped/registered/loop alone and either
+   does not enqueue or enqueues item_of i p j *)
+Lemma prod_move_invS s i p c (en : list item) :
+  InvS s -> nth_error (prods s) i = Some p ->
+  (pk p = KStopper -> c = PSet \/ stopped s = true) ->
+  (en = enq s \/ en = enq s ++ [item_of i p (nidx (pp p))]) ->
+  (pk p = KStopper -> pp p = PSet -> en = enq s) ->
+  (stop_owed_by p -> stop_owed_by (with_pp p c) \/ In IStop en) ->
+  forall s', stopped s' = stopped s -> registered s' = registered s -> loop s' = loop s ->
+    prods s' = set_nth i (with_pp p c) (prods s) -> enq s' = en -> InvS s'.
+Proof.
+  intros [Hst Hrg Hsp Hk Hpre Hod] Hn Hc Hen Hset Hown s' E1 E2 E3 E4 E5.
+  constructor; rewrite ?E1, ?E2, ?E3, ?E4, ?E5; auto.
+  - intros Hin. destruct Hen as [->| ->]; auto. apply in_app_or in Hin. destruct Hin as [Hin|[Hin|[]]]; auto.
+    unfold item_of in Hin. destruct (pk p) eqn:Hkp; [discriminate|].
+    destruct (Hk _ _ Hn Hkp) as [X|X]; auto.
+    specialize (Hset eq_refl X). exfalso.
+    assert (length (enq s ++ [item_of i p (nidx (pp p))]) = length (enq s)) by (f_equal; exact Hset).
+    rewrite app_length in H. simpl in H. lia.
+  - intros i0 p0 Hn0. apply (all_set_prod (fun p => pk p = KStopper -> pn p = 1) _ _ _ _ _ Hn0); eauto.
+    simpl. intros Hkk. eapply Hsp; eauto.
+  - intros i0 p0 Hn0.
+    apply (all_set_prod (fun p => pk p = KStopper -> pp p = PSet \/ stopped s = true) _ _ _ _ _ Hn0); eauto.
+  - intros Hs. destruct (Hod Hs) as [X|[X|(i0 & p0 & Hn0 & Ho)]].
+    + left. destruct Hen as [->| ->]; auto. apply in_or_app. now left.
+    + right. now left.
+    + destruct (Nat.eq_dec i i0) as [<-|Hne].
+      * rewrite Hn in Hn0. inversion Hn0; subst p0. destruct (Hown Ho) as [Y|Y]; auto.
+        right. right. exists i, (with_pp p c). split; auto. eapply nth_set_nth_eq; eauto.
+      * right. right. exists i0, p0. split; auto. rewrite nth_set_nth_neq; auto.
+Qed.
+
+Lemma step_prod_invS i s s' evs : InvS s -> step_prod i s = Some (s', evs) -> InvS s'.
+Proof.
+  intros HI H. pose proof HI as [Hst Hrg Hsp Hk Hpre Hod]. unfold step_prod in H.
+  destruct (nth_error (prods s) i) as [p|] eqn:Hn; [|discriminate].
+  destruct (pp p) eqn:Hpp.
+  - (* PSet *)
+    destruct (pk p) eqn:Hkp; [discriminate|].
+    destruct (stopped s) eqn:Hstp; inversion H; subst; clear H.
+    + eapply (prod_move_invS s i p (PLoad 1) (enq s)); eauto.
+      intros [_ [X|[o X]]]; rewrite Hpp in X; discriminate.
+    + constructor; simpl; auto.
+      * intros i0 p0 Hn0. apply (all_set_prod (fun p => pk p = KStopper -> pn p = 1) _ _ _ _ _ Hn0); eauto.
+        simpl. intros Hkk. eapply Hsp; eauto.
+      * intros _. destruct (registered s) eqn:Hr.
+        -- right. right. exists i, (with_pp p (PLoad 0)). split.
+           ++ eapply nth_set_nth_eq; eauto.
+           ++ split; simpl; auto.
+        -- right. left. left. auto.
+  - (* PLoad *)
+    destruct (Nat.ltb j (pn p)); inversion H; subst; clear H.
+    eapply (prod_move_invS s i p (PCas j (head_ptr s)) (enq s)); eauto.
+    + intros Hkp. destruct (Hk _ _ Hn Hkp) as [X|X]; [congruence|auto].
+    + intros [Hkp [X|[o X]]]; rewrite Hpp in X; inversion X; subst. left. split; simpl; eauto.
+  - (* PCas *)
+    destruct (ptr_eqb (head_ptr s) old).
+    + unfold do_enqueue in H. inversion H; subst; clear H.
+      eapply (prod_move_invS s i p (if inactive s then PWrite j else PLoad (S j)) (enq s ++ [item_of i p j])); eauto.
+      * intros Hkp. destruct (Hk _ _ Hn Hkp) as [X|X]; [congruence|auto].
+      * right. rewrite Hpp. reflexivity.
+      * intros _ X. congruence.
+      * intros [Hkp _]. right. apply in_or_app. right. unfold item_of. rewrite Hkp. now left.
+    + inversion H; subst; clear H.
+      eapply (prod_move_invS s i p (PCas j (head_ptr s)) (enq s)); eauto.
+      * intros Hkp. destruct (Hk _ _ Hn Hkp) as [X|X]; [congruence|auto].
+      * intros [Hkp [X|[o X]]]; rewrite Hpp in X; inversion X; subst. left. split; simpl; eauto.
+  - (* PWrite *)
+    inversion H; subst; clear H.
+    eapply (prod_move_invS s i p (PLoad (S j)) (enq s)); eauto.
+    + intros Hkp. destruct (Hk _ _ Hn Hkp) as [X|X]; [congruence|auto].
+    + intros [Hkp [X|[o X]]]; rewrite Hpp in X; discriminate.
+Qed.
+
+Lemma continue_batch_S s b :
+  enq (continue_batch s b) = enq s /\ prods (continue_batch s b) = prods s /\
+  stopped (continue_batch s b) = stopped s /\ registered (continue_batch s b) = registered s /\
+  (loop (continue_batch s b) = LExec \/ loop (continue_batch s b) = LRet \/ loop (continue_batch s b) = LMarkLoad).
+Proof.
+  unfold continue_batch. destruct (strip_stops b) as [a r]. destruct r; simpl.
+  - destruct (should_stop s || _); simpl; auto 10.
+  - auto 10.
+Qed.
+
+(* a step of the loop that leaves the stop bits, the producers and the queue ghost alone and is
+   neither at nor going to the registration / inline-callback phase *)
+Lemma loop_move_invS s s' :
+  InvS s -> stopped s' = stopped s -> registered s' = registered s -> prods s' = prods s -> enq s' = enq s ->
+  loop s <> LReg -> ~ in_pre (loop s) -> loop s' <> LReg -> ~ in_pre (loop s') -> InvS s'.
+Proof.
+  intros [Hst Hrg Hsp Hk Hpre Hod] E1 E2 E3 E4 N1 N2 N3 N4.
+  constructor; rewrite ?E1, ?E2, ?E3, ?E4; auto.
+  - intros A B. elim N1. auto.
+  - intros A. destruct (Hod A) as [X|[X|X]]; auto.
+    exfalso. destruct X as [X|[X|[o X]]]; [now elim N1| |]; elim N2; unfold in_pre; eauto.
+Qed.
+
+Ltac not_pre := let X := fresh in let o := fresh in
+  solve [intros [X|[[o X]|X]]; first [discriminate | rewrite X in *; discriminate]].
+
+Lemma step_loop_invS s s' evs : InvS s -> step_loop s = Some (s', evs) -> InvS s'.
+Proof.
+  intros HI H. pose proof HI as [Hst Hrg Hsp Hk Hpre Hod]. unfold step_loop in H.
+  destruct (loop s) eqn:Hl.
+  - (* LReg *)
+    destruct (stopped s) eqn:Hs; inversion H; subst; clear H.
+    + constructor; simpl; auto.
+      * intros A B. congruence.
+      * intros _. destruct (Hod eq_refl) as [X|[X|X]]; auto. right. left. right. now left.
+    + constructor; simpl; auto.
+      * discriminate.
+      * not_pre.
+      * discriminate.
+  - (* LPreLoad *)
+    inversion H; subst; clear H. constructor; simpl; auto.
+    + intros A B. rewrite Hpre in B; [discriminate|]. left; auto.
+    + intros _. apply Hpre. left; auto.
+    + intros A. destruct (Hod A) as [X|[X|X]]; auto. right. left. right. right. eauto.
+  - (* LPreCas *)
+    assert (Hs : stopped s = true) by (apply Hpre; right; left; eauto).
+    destruct (ptr_eqb (head_ptr s) old).
+    + unfold do_enqueue in H. inversion H; subst; clear H. constructor; simpl; auto.
+      * intros A B. congruence.
+      * intros _. left. apply in_or_app. right. now left.
+    + inversion H; subst; clear H. constructor; simpl; auto.
+      * intros A B. congruence.
+      * intros A. destruct (Hod A) as [X|[X|X]]; auto. right. left. right. right. eauto.
+  - (* LPreWrite *)
+    assert (Hs : stopped s = true) by (apply Hpre; right; right; auto).
+    inversion H; subst; clear H. constructor; simpl; auto.
+    + intros A B. congruence.
+    + intros A. destruct (Hod A) as [X|[X|X]]; auto.
+      destruct X as [X|[X|[o X]]]; discriminate.
+  - (* LExec *)
+    destruct (pending s) as [|it rest]; [discriminate|]. inversion H; subst; clear H.
+    match goal with |- InvS (continue_batch ?x ?y) => destruct (continue_batch_S x y) as (E1 & E2 & E3 & E4 & E5) end.
+    eapply loop_move_invS; eauto; rewrite ?Hl; try discriminate; try not_pre.
+    + destruct E5 as [E|[E|E]]; rewrite E; discriminate.
+    + destruct E5 as [E|[E|E]]; rewrite E; not_pre.
+  - inversion H; subst; clear H.
+    eapply loop_move_invS; eauto; simpl; rewrite ?Hl; try discriminate; try not_pre;
+      destruct (stack s); try discriminate; not_pre.
+  - destruct (stack s); inversion H; subst; clear H;
+      eapply loop_move_invS; eauto; simpl; rewrite ?Hl; try discriminate; not_pre.
+  - inversion H; subst; clear H.
+    match goal with |- InvS (continue_batch ?x ?y) => destruct (continue_batch_S x y) as (E1 & E2 & E3 & E4 & E5) end.
+    eapply loop_move_invS; eauto; rewrite ?Hl; try discriminate; try not_pre.
+    + destruct E5 as [E|[E|E]]; rewrite E; discriminate.
+    + destruct E5 as [E|[E|E]]; rewrite E; not_pre.
+  - destruct (Nat.ltb 0 (efd s)); [|discriminate]. inversion H; subst; clear H.
+    eapply loop_move_invS; eauto; simpl; rewrite ?Hl; try discriminate; not_pre.
+  - inversion H; subst; clear H.
+    eapply loop_move_invS; eauto; simpl; rewrite ?Hl; try discriminate; not_pre.
+  - inversion H; subst; clear H.
+    eapply loop_move_invS; eauto; simpl; rewrite ?Hl; try discriminate; not_pre.
+  - discriminate.
+Qed.
+
+Lemma step_invS t s s' evs : InvS s -> step t s = Some (s', evs) -> InvS s'.
+Proof. destruct t; simpl; [apply step_loop_invS | apply step_prod_invS]. Qed.
+
+Theorem invS_reachable counts nstop pre (sched : list nat) :
+  InvS (fst (run step sched (init counts nstop pre, []))).
+Proof.
+  apply (run_invariant_state _ _ _ step InvS); [|apply invS_init].
+  intros; eapply step_invS; eauto.
+Qed.
+
+(* ---- theorems --------------------------------------------------------------------------------------- *)
+Definition exec_items (tr : list ev) : list item :=
+  flat_map (fun e => match e with EExec it => [it] | _ => [] end) tr.
+
+Lemma exec_items_app a b : exec_items (a ++ b) = exec_items a ++ exec_items b.
+Proof. unfold exec_items. apply flat_map_app. Qed.
+
+Lemma filter_work_stops a : (forall x, In x a -> x = IStop) -> filter is_work a = [].
+Proof.
+  induction a as [|x a IH]; simpl; intros H; auto.
+  rewrite (H x (or_introl eq_refl)). simpl. apply IH. intros y Hy. apply H. now right.
+Qed.
+
+(* items run only in steps of thread 0, one per step, and the ghost list records them *)
+Lemma step_executed t s s' evs :
+  InvQ s -> step t s = Some (s', evs) ->
+  executed s' = executed s ++ exec_items evs /\ (exec_items evs <> [] -> t = 0).
+Proof.
+  intros HQ H. destruct t; simpl in H.
+  - split; auto. pose proof HQ as [Hia Hf Hp Hs Hsl Hr Hnd Ho]. unfold pend_ok in Hp.
+    unfold step_loop in H.
+    assert (Hfin : forall x, Some x = Some (s', evs) -> executed (fst x) = executed s -> exec_items (snd x) = [] ->
+                   executed s' = executed s ++ exec_items evs).
+    { intros x E E1 E2. inversion E; subst x. simpl in *. rewrite E1, E2. now rewrite app_nil_r. }
+    destruct (loop s) eqn:Hl.
+    + destruct (stopped s); eapply Hfin; eauto.
+    + eapply Hfin; eauto.
+    + destruct (ptr_eqb (head_ptr s) old); [unfold do_enqueue in H; destruct (inactive s)|]; eapply Hfin; eauto.
+    + eapply Hfin; eauto.
+    + (* LExec *)
+      destruct Hp as (p & j & r & Hp). rewrite Hp in H. inversion H; subst; clear H.
+      match goal with |- executed (continue_batch ?x ?y) = _ =>
+        destruct (continue_batch_Q x y) as (_ & _ & _ & _ & _ & _ & _ & _ & _ & _ & _ & _ & _ & (a & Ha & Hall) & _) end.
+      * simpl. rewrite Hf, Hp. now rewrite <- !app_assoc.
+      * simpl. rewrite Hs, in_app_iff. simpl. split; [tauto|]. intros [X|[X|[]]]; auto. discriminate.
+      * auto.
+      * unfold executed. rewrite Ha. simpl. rewrite !filter_app. simpl.
+        rewrite (filter_work_stops a Hall). now rewrite app_nil_r.
+    + eapply Hfin; eauto.
+    + destruct (stack s); eapply Hfin; eauto.
+    + (* LXchg *)
+      inversion H; subst; clear H.
+      match goal with |- executed (continue_batch ?x ?y) = _ =>
+        destruct (continue_batch_Q x y) as (_ & _ & _ & _ & _ & _ & _ & _ & _ & _ & _ & _ & _ & (a & Ha & Hall) & _) end.
+      * simpl. rewrite Hf, Hp. simpl. now rewrite app_nil_r.
+      * simpl. exact Hs.
+      * auto.
+      * unfold executed. rewrite Ha. simpl. rewrite !filter_app.
+        rewrite (filter_work_stops a Hall). reflexivity.
+    + destruct (Nat.ltb 0 (efd s)); [|discriminate]. eapply Hfin; eauto.
+    + eapply Hfin; eauto.
+    + eapply Hfin; eauto.
+    + discriminate.
+  - unfold step_prod in H. destruct (nth_error (prods s) t) as [p|]; [|discriminate].
+    destruct (pp p); try (destruct (pk p)); try (destruct (stopped s)); try (destruct (Nat.ltb j (pn p)));
+      try (destruct (ptr_eqb (head_ptr s) old)); try (unfold do_enqueue in H); try discriminate;
+      inversion H; subst; clear H; simpl; rewrite app_nil_r; split; auto; intros X; now elim X.
+Qed.
+
+Theorem executed_is_trace counts nstop pre (sched : list nat) :
+  let c := run step sched (init counts nstop pre, []) in
+  exec_items (snd c) = executed (fst c).
+Proof.
+  intros c. subst c.
+  apply (run_invariant _ _ _ step (fun c => InvQ (fst c) /\ exec_items (snd c) = executed (fst c))).
+  - intros c t s' evs [HQ He] Hs. simpl. split.
+    + eapply step_invQ; eauto.
+    + rewrite exec_items_app, He. destruct (step_executed _ _ _ _ HQ Hs) as [-> _]. reflexivity.
+  - simpl. split; [apply invQ_init|reflexivity].
+Qed.
+
+(* every item runs at most once, only after it was enqueued, in enqueue order; by the I/O thread *)
+Theorem each_item_once_in_order counts nstop pre (sched : list nat) :
+  let c := run step sched (init counts nstop pre, []) in
+  NoDup (exec_items (snd c)) /\
+  exists queued, filter is_work (enq (fst c)) = exec_items (snd c) ++ queued.
+Proof.
+  intros c. pose proof (executed_is_trace counts nstop pre sched) as He. fold c in He. rewrite He.
+  pose proof (invQ_reachable counts nstop pre sched) as [Hia Hf Hp Hs Hsl Hr Hnd Ho]. fold c in Hf, Hnd.
+  unfold executed. rewrite Hf, filter_app in Hnd. split.
+  - eapply NoDup_app_l; eauto.
+  - rewrite Hf, filter_app. eauto.
+Qed.
+
+Theorem exec_only_on_io_thread counts nstop pre (sched : list nat) t s' evs it :
+  let s := fst (run step sched (init counts nstop pre, [])) in
+  step t s = Some (s', evs) -> In (EExec it) evs -> t = 0.
+Proof.
+  intros s Hs Hin. pose proof (invQ_reachable counts nstop pre sched) as HQ. fold s in HQ.
+  destruct (step_executed _ _ _ _ HQ Hs) as [_ H]. apply H.
+  intros E. assert (In it (exec_items evs)).
+  { unfold exec_items. apply in_flat_map. exists (EExec it). split; auto. now left. }
+  rewrite E in H0. destruct H0.
+Qed.
+
+(* run() returns only after a stop request, with the whole batch that contained the stop operation
+   executed: everything enqueued before the stop operation has run *)
+Theorem run_returns_only_after_stop counts nstop pre (sched : list nat) :
+  let s := fst (run step sched (init counts nstop pre, [])) in
+  returned s = true ->
+  stopped s = true /\
+  exists before after, enq s = before ++ IStop :: after /\
+    forall it, In it before -> is_work it = true -> In it (executed s).
+Proof.
+  intros s Hret.
+  pose proof (invQ_reachable counts nstop pre sched) as [Hia Hf Hp Hs Hsl Hr Hnd Ho].
+  pose proof (invS_reachable counts nstop pre sched) as [Hst _ _ _ _ _].
+  fold s in Hia, Hf, Hp, Hs, Hsl, Hr, Hst. unfold pend_ok in Hp.
+  unfold returned in Hret. destruct (loop s) eqn:Hl; try discriminate.
+  assert (Hss : should_stop s = true) by (apply Hr; now right).
+  apply Hs in Hss. destruct (in_split _ _ Hss) as (b & a & Hc).
+  assert (Hin : In IStop (enq s)). { rewrite Hf. apply in_or_app. now left. }
+  split; [auto|].
+  exists b, (a ++ rev (stack s)). split.
+  - rewrite Hf, Hp, Hc. simpl. now rewrite <- app_assoc.
+  - intros it Hb Hw. unfold executed. apply filter_In. split; auto. rewrite Hc. apply in_or_app. now left.
+Qed.
+
+(* no stuck state with work or a stop request pending: when no thread can move, every producer has
+   finished and either run() has returned, or the I/O thread sleeps with the queue marked inactive,
+   everything ever enqueued executed and no stop requested *)
+Theorem no_stuck counts nstop pre (sched : list nat) :
+  let s := fst (run step sched (init counts nstop pre, [])) in
+  (forall t, step t s = None) ->
+  (forall i p, nth_error (prods s) i = Some p -> prod_done p = true \/ (pk p = KProd /\ pp p = PSet)) /\
+  (returned s = true \/
+   (blocked s = true /\ inactive s = true /\ stopped s = false /\
+    filter is_work (enq s) = executed s /\ stack s = [] /\ pending s = [])).
+Proof.
+  intros s Hstuck.
+  pose proof (invW_reachable counts nstop pre sched) as [Wi Wa Wr Wt].
+  pose proof (invQ_reachable counts nstop pre sched) as [Hia Hf Hp Hs Hsl Hr Hnd Ho].
+  pose proof (invS_reachable counts nstop pre sched) as [Hst Hrg Hsp Hk Hpre Hod].
+  fold s in Wi, Wa, Wr, Wt, Hia, Hf, Hp, Hs, Hsl, Hr, Hst, Hrg, Hsp, Hk, Hpre, Hod. unfold pend_ok in Hp.
+  assert (Hprod : forall i p, nth_error (prods s) i = Some p ->
+                  (prod_done p = true \/ (pk p = KProd /\ pp p = PSet)) /\ at_write p = false /\ ~ stop_owed_by p).
+  { intros i p Hn. specialize (Hstuck (S i)). simpl in Hstuck. unfold step_prod in Hstuck. rewrite Hn in Hstuck.
+    unfold prod_done, at_write, stop_owed_by. destruct (pp p) eqn:Hpp.
+    - destruct (pk p) eqn:Hkp; [|destruct (stopped s); discriminate].
+      repeat split; auto. intros [X _]; discriminate.
+    - destruct (Nat.ltb j (pn p)) eqn:E; [discriminate|]. apply Nat.ltb_ge in E.
+      repeat split; auto. + left. now apply Nat.leb_le.
+      + intros [Hkp [X|[o X]]]; [|discriminate]. inversion X; subst j. rewrite (Hsp _ _ Hn Hkp) in E. lia.
+    - destruct (ptr_eqb (head_ptr s) old); unfold do_enqueue in Hstuck; try destruct (inactive s); discriminate.
+    - discriminate. }
+  split; [intros i p Hn; apply (Hprod i p Hn)|].
+  specialize (Hstuck 0). simpl in Hstuck. unfold step_loop in Hstuck.
+  destruct (loop s) eqn:Hl.
+  - destruct (stopped s); discriminate.
+  - discriminate.
+  - destruct (ptr_eqb (head_ptr s) old); [unfold do_enqueue in Hstuck; destruct (inactive s)|]; discriminate.
+  - discriminate.
+  - destruct Hp as (p & j & r & Hp). rewrite Hp in Hstuck. discriminate.
+  - discriminate.
+  - destruct (stack s); discriminate.
+  - discriminate.
+  - (* LWait *)
+    destruct (Nat.ltb 0 (efd s)) eqn:E; [discriminate|]. apply Nat.ltb_ge in E.
+    assert (He : efd s = 0) by lia.
+    assert (Hcw : count_w (prods s) = 0).
+    { apply count_w_zero. intros i p Hn. apply (Hprod i p Hn). }
+    assert (Hina : inactive s = true).
+    { destruct (inactive s) eqn:I; auto. specialize (Wa eq_refl). simpl in Wa. lia. }
+    right. unfold blocked. rewrite Hl, He. simpl.
+    assert (Hstk : stack s = []) by auto.
+    assert (Hnst : stopped s = false).
+    { destruct (stopped s) eqn:S1; auto. exfalso. destruct (Hod eq_refl) as [X|[X|(i & p & Hn & X)]].
+      - rewrite Hf, Hp, Hstk in X. simpl in X. rewrite app_nil_r in X. apply Hs in X.
+        destruct (Hsl X) as [Y|[Y|Y]]; discriminate.
+      - destruct X as [X|[X|[o X]]]; discriminate.
+      - apply (Hprod i p Hn). exact X. }
+    repeat split; auto.
+    unfold executed. rewrite Hf, Hp, Hstk. simpl. now rewrite app_nil_r.
+  - discriminate.
+  - discriminate.
+  - left. unfold returned. now rewrite Hl.
+Qed.
+
+(* run(stop_token) returns after stop: once stop is requested there is no stuck state short of
+   run() having returned *)
+Theorem run_returns_after_stop counts nstop pre (sched : list nat) :
+  let s := fst (run step sched (init counts nstop pre, [])) in
+  stopped s = true -> (forall t, step t s = None) -> returned s = true.
+Proof.
+  intros s Hs Hstuck. destruct (no_stuck counts nstop pre sched Hstuck) as [_ [H|H]]; auto.
+  fold s in H. destruct H as (_ & _ & H & _). congruence.
+Qed.
